@@ -310,10 +310,10 @@ Local Ltac retro_tail f i j scr :=
   | rewrite src_get_thetas_is_model, (next_step_tail f i j scr Ej); unfold next_action;
     destruct (has_thetas_dist f (i, 0)); [destruct scr|]; reflexivity ].
 
-Theorem src_run_next_retro_is_model : forall (f : fs) (bs : Z),
-  src_run_next_retrospective_step f SInput bs = result_of_plan Retro bs (plan_of Retro true bs f).
+Theorem src_run_next_retro_is_model : forall (f : fs) (extra : eargs) (bs : Z),
+  src_run_next_retrospective_step f SInput extra bs = result_of_plan Retro bs (plan_of Retro true bs f).
 Proof.
-  intros f bs. unfold src_run_next_retrospective_step, plan_of. cbn [tree_after fold_left].
+  intros f extra bs. unfold src_run_next_retrospective_step, plan_of. cbn [tree_after fold_left].
   rewrite src_examine_is_model.
   destruct (examine true bs f) as [[[[i j] meta] scr]|w s]; cbn [sres_of_xres sbind result_of_plan]; [|reflexivity].
   destruct meta as [m|]; cbn [is_some sunwrap sbind].
@@ -321,10 +321,10 @@ Proof.
   - retro_tail f i j scr.
 Qed.
 
-Theorem src_run_next_prosp_is_model : forall (f : fs) (bs : Z),
-  src_run_next_prospective_step f SInput bs = result_of_plan Prosp bs (plan_of Prosp true bs f).
+Theorem src_run_next_prosp_is_model : forall (f : fs) (extra : eargs) (bs : Z),
+  src_run_next_prospective_step f SInput extra bs = result_of_plan Prosp bs (plan_of Prosp true bs f).
 Proof.
-  intros f bs. unfold src_run_next_prospective_step, plan_of. cbn [tree_after fold_left].
+  intros f extra bs. unfold src_run_next_prospective_step, plan_of. cbn [tree_after fold_left].
   rewrite src_examine_is_model.
   destruct (examine true bs f) as [[[[i j] meta] scr]|w s]; cbn [sres_of_xres sbind result_of_plan]; [|reflexivity].
   rewrite src_get_selected_is_model. cbn [sbind app fst].
@@ -334,15 +334,15 @@ Proof.
 Qed.
 
 (* ---- the value a call hands back to main() ---- *)
-Definition src_run_next (md : mode) (f : fs) (bs : Z) : sres (bool * list action) :=
+Definition src_run_next (md : mode) (f : fs) (extra : eargs) (bs : Z) : sres (bool * list action) :=
   match md with
-  | Retro => src_run_next_retrospective_step f SInput bs
-  | Prosp => src_run_next_prospective_step f SInput bs
+  | Retro => src_run_next_retrospective_step f SInput extra bs
+  | Prosp => src_run_next_prospective_step f SInput extra bs
   end.
 
-Theorem src_run_next_is_model : forall md f bs,
-  src_run_next md f bs = result_of_plan md bs (plan_of md true bs f).
-Proof. intros [|] f bs; [apply src_run_next_retro_is_model | apply src_run_next_prosp_is_model]. Qed.
+Theorem src_run_next_is_model : forall md f extra bs,
+  src_run_next md f extra bs = result_of_plan md bs (plan_of md true bs f).
+Proof. intros [|] f extra bs; [apply src_run_next_retro_is_model | apply src_run_next_prosp_is_model]. Qed.
 
 Lemma plan_acts_shape md fixed bs f acts :
   plan_of md fixed bs f = PActs acts -> exists a b c x, acts = [a; b; c; x].
@@ -358,11 +358,11 @@ Qed.
 
 (* whenever the model says a call returns b to main() (call_returns: it was not interrupted, the script did not raise,
    the pipeline's exit status was 0), b is the value the translated function returns *)
-Theorem call_returns_is_source : forall md bs n f e b,
+Theorem call_returns_is_source : forall md bs n f e extra b,
   call_returns md bs (snd (attempt md true bs n f e)) = Some b ->
-  exists acts, src_run_next md f bs = SOk (b, acts).
+  exists acts, src_run_next md f extra bs = SOk (b, acts).
 Proof.
-  intros md bs n f e b. rewrite src_run_next_is_model. unfold attempt.
+  intros md bs n f e extra b. rewrite src_run_next_is_model. unfold attempt.
   destruct (plan_of md true bs f) as [w s| |acts] eqn:Ep; cbn [snd call_returns result_of_plan].
   - discriminate.
   - intros H; injection H as <-. eexists; reflexivity.
